@@ -2,6 +2,7 @@ package c01
 
 import (
 	"fmt"
+	"io"
 
 	hserver "github.com/cloudwego/hertz/pkg/app/server"
 	"github.com/cloudwego/hertz/pkg/common/config"
@@ -39,9 +40,25 @@ func server(stream bool, readBuf int) *srv.Echo {
 	if s, ok := servers[k]; ok {
 		return s
 	}
-	s := srv.NewEcho(srv.Config{Stream: stream, ReadBuf: readBuf, MaxBody: 8 << 20})
+	s := srv.NewEcho(srv.Config{Stream: stream, ReadBuf: readBuf, MaxBody: 8 << 20, ReadBody: readBody})
 	servers[k] = s
 	return s
+}
+
+// curStop: how many bytes of a streamed body the echo handler reads before it returns (-1 = all).
+// A handler that leaves part of a streamed body unread must not disturb the requests behind it.
+var curStop = -1
+
+func readBody(r io.Reader) ([]byte, error) {
+	if curStop < 0 {
+		return io.ReadAll(r)
+	}
+	b := make([]byte, curStop)
+	n, err := io.ReadFull(r, b)
+	if err == io.EOF || err == io.ErrUnexpectedEOF {
+		err = nil
+	}
+	return b[:n], err
 }
 
 // runner is an echo server that serves one connection's fragments: the scripted-connection
@@ -65,6 +82,21 @@ func CheckStream(e runner, s *gen.Stream) string {
 		return fmt.Sprintf("%d handler invocations for %d requests\nobserved:\n%s\noutput: %s", len(obs), len(s.Reqs), srv.Describe(obs), srv.Short(res.Output))
 	}
 	for i, r := range s.Reqs {
+		if obs[i].Streamed && curStop >= 0 && curStop <= len(r.Body) {
+			// the handler stopped early: it must have seen exactly the first curStop bytes; compare the
+			// rest of the request (the trailer section is not available before the body was read to its end)
+			if string(obs[i].Body) != string(r.Body[:curStop]) {
+				return fmt.Sprintf("request #%d: handler read %d bytes of the streamed body and got %s, want the first %d bytes of the body", i, len(obs[i].Body), srv.Short(obs[i].Body), curStop)
+			}
+			cp := *r
+			cp.Body, cp.Trailers = obs[i].Body, nil
+			o := obs[i]
+			o.Trailers = nil
+			if msg := srv.Match(&cp, s.Infos[i].FoldedNames, &o); msg != "" {
+				return fmt.Sprintf("request #%d (%s %s, %s, body %d, handler stops after %d bytes): handler saw %s", i, r.Method, r.Target, r.Framing, r.BodyLen, curStop, msg)
+			}
+			continue
+		}
 		if msg := srv.Match(r, s.Infos[i].FoldedNames, &obs[i]); msg != "" {
 			return fmt.Sprintf("request #%d (%s %s, %s, body %d): handler saw %s", i, r.Method, r.Target, r.Framing, r.BodyLen, msg)
 		}
@@ -92,7 +124,11 @@ func CheckStream(e runner, s *gen.Stream) string {
 			return fmt.Sprintf("response in position of request #%d has status %d, echo index %d", i, rs[ri].Status, srv.EchoIndex(rs[ri]))
 		}
 		if r.Method != "HEAD" {
-			want := fmt.Sprintf("idx=%d;method=%s;uri=%s;bodylen=%d", i, r.Method, r.Target, r.BodyLen)
+			bl := r.BodyLen
+			if obs[i].Streamed && curStop >= 0 && curStop <= bl {
+				bl = curStop
+			}
+			want := fmt.Sprintf("idx=%d;method=%s;uri=%s;bodylen=%d", i, r.Method, r.Target, bl)
 			if string(rs[ri].Body) != want {
 				return fmt.Sprintf("response #%d body %q, want %q", i, rs[ri].Body, want)
 			}
@@ -200,9 +236,15 @@ func TestC01Streams(t *testing.T) {
 		readBuf := rapid.SampledFrom([]int{4096, 4096, 1, 8192}).Draw(t, "readBuf")
 		s := gen.GenStream(t, 6, gen.ReqOpts{Fold: true, NearMiss: true, Expect: true, HTTP10: true, Huge: ev.Thorough()})
 		nt, cls := classify(s, stream)
-		rec.Case(nt, ev.Hash(s.Bytes, []byte(fmt.Sprint(stream, readBuf, s.Cuts))), cls...)
+		curStop = -1
+		if stream && rapid.IntRange(0, 3).Draw(t, "handlerStopsEarly") == 0 {
+			curStop = rapid.SampledFrom([]int{0, 1, 5, 100, 4095, 4096, 8191, 8192, 8193, 20000}).Draw(t, "stopAfter")
+			cls = append(cls, "handler-leaves-streamed-body-unread")
+		}
+		defer func() { curStop = -1 }()
+		rec.Case(nt, ev.Hash(s.Bytes, []byte(fmt.Sprint(stream, readBuf, s.Cuts, curStop))), cls...)
 		if msg := CheckStream(server(stream, readBuf), s); msg != "" {
-			t.Fatalf("streaming=%v readBuf=%d cuts=%v\n%s\nstream: %s", stream, readBuf, trimInts(s.Cuts), msg, srv.Short(s.Bytes))
+			t.Fatalf("streaming=%v readBuf=%d handlerStopsAfter=%d cuts=%v\n%s\nstream: %s", stream, readBuf, curStop, trimInts(s.Cuts), msg, srv.Short(s.Bytes))
 		}
 		if nt && rec.WantSample() {
 			rec.Sample(sample(s, stream, readBuf))
